@@ -71,8 +71,10 @@ class TreeScenario:
 
     def assume_ranges(self, it, dmax=1 << 100):
         for i in self.d:
-            it.assume(z3.And(self.d[i] >= 1, self.d[i] < dmax))
-            it.assume(z3.And(self.t[i] >= 0, self.t[i] < (1 << 32)))
+            if not isinstance(self.d[i], int):
+                it.declare_bounds(self.d[i], 1, dmax - 1)
+            if not isinstance(self.t[i], int):
+                it.declare_bounds(self.t[i], 0, (1 << 32) - 1)
 
     def path(self, i):
         r = []
